@@ -6,5 +6,6 @@ CONSTANTS
   NotMode = "frame"
   IdxMode = "name"
   PopMode = "delete"
+  NilMode = "commaok"
 INVARIANTS StaticWFSound OpEqualsDen VisibleIsSuccessfulPath ConsistentRecall NotLeavesNoBindings AtomicAlternatives
 CHECK_DEADLOCK FALSE
